@@ -1,9 +1,49 @@
-(* Props/C02.v -- property C02 (statements proved so far; see DESIGN.md section 7 C02). *)
-From Coq Require Import NArith List Bool.
-From NRF Require Import Env.Radio Env.RadioFacts.
+(* Props/C02.v -- property C02 (send() tells the truth about delivery).  Statements, each closed by `exact`.
+   PARTIAL, see DESIGN.md section 7: proved is the core case -- send(buf, ask_no_ack, force_retry=0,
+   send_only=True) of a transmitter whose TX FIFO is empty, in any world whose other radios do not transmit.
+   force_retry > 0, resend(), ACK-payload results (send_only=False), list arguments, a non-empty TX FIFO and the
+   time bound are decided by the correspondence run with the loss oracle and its fate checker (corr/c02.py). *)
+From Coq Require Import ZArith NArith List Bool.
+From NRF Require Import Env.Radio Env.World Env.RadioFacts Env.WorldFacts Env.WfFacts Env.QuietFacts Drv.RF24 Drv.SendFacts.
 Import ListNotations.
 Local Open Scope N_scope.
-Theorem C02_status_is_pre_command : forall r cmd data,
-  hd 0 (snd (spi r (cmd :: data))) = status r.
+
+Theorem C02_status_is_pre_command : forall r cmd data, hd 0 (snd (spi r (cmd :: data))) = status r.
 Proof. exact spi_status_first. Qed.
 Print Assumptions C02_status_is_pre_command.
+
+(* In TX mode (PWR_UP set, PRIM_RX clear) with an empty TX FIFO and no stale TX_FULL/MAX_RT in the cached status,
+   in ANY well-formed world (any number of radios, any configuration, FIFO contents and loss oracle) whose other
+   radios are receiving, in standby or powered down: send() terminates with one status poll and returns True if
+   and only if the radio completed the transmission -- `exchange_ok`: acknowledged by a matching listening peer
+   within 1+ARC attempts under the oracle's loss pattern, or sent once when no acknowledgement is requested.
+   The world in which the transmission takes place differs from the initial one only in radio `me`: flags cleared,
+   exactly this (normalised) payload queued, CE high. *)
+Theorem C02_send_truth : forall me d w buf b noack k,
+  Q me w -> AllWf w ->
+  pwr_up (get_radio w me) = true -> prim_rx (get_radio w me) = false ->
+  tx_fifo (get_radio w me) = [] ->
+  st_bit d 16 = false -> st_bit d 1 = false ->
+  norm_payload d buf = Ok b ->
+  let s := get_radio w me in
+  let armed := with_ce (loaded (with_flags (with_ce s false) 0) noack b) true in
+  exists d' w' wpre,
+    radios wpre = set_nth_radio (radios w) me armed /\ oracle wpre = oracle w /\
+    send (WB me) buf noack 0 true (S k) d w = (Ok (SBool (exchange_ok wpre me)), d', w') /\
+    radios w' = radios (exchange wpre me).
+Proof. exact send_truth. Qed.
+Print Assumptions C02_send_truth.
+
+(* what `exchange_ok` means for the transmitter: exactly TX_DS is latched and the payload has left the TX FIFO on
+   success; exactly MAX_RT is latched and the payload stays queued (for resend()) on failure; an attempt never
+   touches the transmitter's TX FIFO or its TX_DS/MAX_RT flags otherwise *)
+Theorem C02_exchange_outcome : forall w si e rest,
+  (si < length (radios w))%nat -> tx_fifo (get_radio w si) = e :: rest ->
+  let s' := get_radio (exchange w si) si in
+  exists s1, TR (get_radio w si) s1 /\
+    (if exchange_ok w si
+     then flags s' = N.lor (flags s1) 32 /\ tx_fifo s' = tl (tx_fifo s1)
+     else flags s' = N.lor (flags s1) 16 /\ tx_fifo s' = tx_fifo s1)
+    /\ cview s' = cview (get_radio w si).
+Proof. exact exchange_transmitter. Qed.
+Print Assumptions C02_exchange_outcome.
